@@ -6,6 +6,9 @@ A predicate takes (trace_line, state) and returns None when the property holds o
 that line (or the line is not about the property) and a message otherwise.
 """
 import math
+import sys
+if hasattr(sys, "set_int_max_str_digits"):
+    sys.set_int_max_str_digits(0)
 import re
 
 W = 1 << 64
@@ -797,4 +800,155 @@ PROPS["C12"] = dict(
                "C++ memory safety rests on sanitizer-observed behaviour: the real importers, stream constructors + CheckGroup, key/card/stack parsers, OpenPGP decoders and verifier receive paths are fed structure-aware mutations of valid inputs under ASan/UBSan; any sanitizer report, signal, abort or time-out is a violation with the input as replay.",
     level_note=LEVEL_NOTE + " There is no proof about the C++ heap; agreement and absence of sanitizer reports are established on the explored inputs only.",
     assumptions=["partial: theorems cover the model's logic for the discrete-log card family; the other parsers are covered by sanitizer exploration only"],
+)
+
+
+# ---------------------------------------------------------------------------- C14
+def pred_c14(line, st):
+    op, a, r = toks(line)
+    if op != "prop.rbc":
+        return None
+    run, n, t, fifo, fskip, byz, pattern, drained = a[0], int(a[1]), int(a[2]), a[3] == "1", int(a[4]), a[5], a[6], a[7] == "1"
+    honest = ilist(a[8])
+    bc = [x.split(":") for x in plist(a[9])]      # party:ID:seq:value:fifo
+    dl = [x.split(":") for x in plist(a[10])]     # party:curID:sender:seq:value:msgID:fifo
+    throws = plist(a[13]) if len(a) > 13 else []
+    nbyz = 0 if byz == "-" else 1
+    if nbyz > t or 3 * t >= n:
+        return None                                 # outside the fault assumption: nothing is promised
+    st["runs"] = st.get("runs", 0) + 1
+    bset = {(int(x[0]), x[1], x[2]): x[3] for x in bc}
+    seen = {}
+    per_party_slots = {}
+    order = {}
+    for x in dl:
+        p, cur, snd, seq, val, mid, ff = int(x[0]), x[1], int(x[2]), x[3], x[4], x[5], x[6] == "1"
+        if p not in honest:
+            continue
+        slot = (mid, snd, seq)
+        # channel isolation
+        if cur != mid:
+            return "run %s: party %d delivered a value of channel %s.. while its current channel was %s.." % (run, p, mid[:8], cur[:8])
+        # agreement
+        if slot in seen and seen[slot][0] != val:
+            return "run %s (n=%d t=%d %s): parties %d and %d delivered different values for sender %d slot %s" % (run, n, t, pattern, seen[slot][1], p, snd, seq)
+        seen.setdefault(slot, (val, p))
+        # no duplication
+        k = (p, slot)
+        if k in per_party_slots:
+            return "run %s (n=%d t=%d fifo=%d %s): party %d delivered sender %d slot %s twice" % (run, n, t, ff, pattern, p, snd, seq)
+        per_party_slots[k] = True
+        # integrity for honest senders
+        if snd in honest and bset.get((snd, mid, seq)) != val:
+            return "run %s: party %d delivered for honest sender %d slot %s a value it did not broadcast" % (run, p, snd, seq)
+        # FIFO order
+        if ff and fskip == 0:
+            key = (p, mid, snd)
+            want = order.get(key, 0) + 1
+            if int(seq) != want:
+                return "run %s (%s): party %d delivered slot %s of sender %d, expected slot %d (FIFO order)" % (run, pattern, p, seq, snd, want)
+            order[key] = want
+    if throws and t > 0:
+        return "run %s: Deliver threw %s within the fault assumption" % (run, throws[:2])
+    return None
+
+
+PROPS["C14"] = dict(
+    module="TmcgProps.C14",
+    areas=[("rbc", {"quick": 24, "thorough": 1500}, [], "san")],
+    obligations=[],
+    predicate=pred_c14,
+    level_text="",
+    level_note=LEVEL_NOTE,
+)
+
+
+# ---------------------------------------------------------------------------- C19
+def hexb(s):
+    return b"" if s == "-" else bytes.fromhex(s)
+
+
+def crc24_ref(data):
+    crc = 0xB704CE
+    for b in data:
+        crc ^= b << 16
+        for _ in range(8):
+            crc <<= 1
+            if crc & 0x1000000:
+                crc ^= 0x1864CFB
+    return crc & 0xFFFFFF
+
+
+def len_ref(n):
+    if n < 192:
+        return bytes([n])
+    if n < 8384:
+        v = n - 192
+        return bytes([(v >> 8) + 192, v & 0xFF])
+    return bytes([255]) + (n & 0xFFFFFFFF).to_bytes(4, "big")
+
+
+def pred_c19(line, st):
+    import base64
+    op, a, r = toks(line)
+    if not op.startswith("pgp."):
+        return None
+    if op == "pgp.r64.enc":
+        data = hexb(a[1]); want = base64.b64encode(data).decode()
+        if a[0] == "1":
+            want = "\r\n".join(want[i:i + 64] for i in range(0, len(want), 64))
+        if hexb(r[0]).decode("latin1") != want:
+            return "radix-64 output differs from RFC 4880 / base64 for %d octets" % len(data)
+        st["r64"] = (r[0], a[1])
+    elif op == "pgp.r64.dec" and st.get("r64") and st["r64"][0] == a[0]:
+        if r[0] != st["r64"][1]:
+            return "radix-64 round trip failed"
+    elif op == "pgp.crc24":
+        if hexb(r[0]) != crc24_ref(hexb(a[0])).to_bytes(3, "big"):
+            return "CRC-24 differs from the RFC 4880 reference"
+    elif op == "pgp.len.enc":
+        n = int(a[0])
+        if n < 2 ** 32 and hexb(r[0]) != len_ref(n):
+            return "body length %d encoded as %s" % (n, r[0])
+        st["len"] = (r[0], n)
+    elif op == "pgp.len.dec" and st.get("len") and a[0] == "1" and a[2].startswith(st["len"][0]) and st["len"][1] < 2 ** 32:
+        if a[2] == st["len"][0] and (int(r[1]) != st["len"][1] or r[2] != "0"):
+            return "body length %d does not round-trip" % st["len"][1]
+    elif op == "pgp.mpi.enc":
+        v = int(a[0])
+        if v < 2 ** 65535:
+            want = v.bit_length().to_bytes(2, "big") + (v.to_bytes((v.bit_length() + 7) // 8, "big") if v else b"")
+            if hexb(r[0]) != want:
+                return "MPI of a %d-bit value is not the RFC 4880 encoding" % v.bit_length()
+    elif op == "pgp.s2k.count":
+        c = int(a[0])
+        if int(r[0]) != (16 + (c & 15)) << ((c >> 4) + 6):
+            return "iterated S2K count octet %d decodes to %s" % (c, r[0])
+    elif op == "pgp.armor.enc":
+        st.setdefault("armor", {})[r[0]] = (a[0], a[3], a[1])
+    elif op == "pgp.armor.dec" and tag_of(a) == "orig" and a[0] in st.get("armor", {}):
+        typ, data, comment = st["armor"][a[0]]
+        ctext = hexb(comment)
+        clean = (b"\n" not in ctext) and (b"-----" not in ctext.replace(b" ", b"").replace(b"\t", b"").replace(b"\r", b""))
+        if clean and (r[0] != typ or r[1] != data):
+            return "armor emitted for %d octets of type %s does not decode to itself" % (len(hexb(data)), typ)
+    return None
+
+
+PROPS["C19"] = dict(
+    module="TmcgProps.C19",
+    areas=[("pgpcodec", {"quick": 120, "thorough": 3000}, ["--s2k-sample"], "san")],
+    obligations=[("Tmcg.C19.radix64_roundtrip", "full"), ("Tmcg.C19.radix64_lines_le_76", "full"),
+                 ("Tmcg.C19.crc24_spec", "full"), ("Tmcg.C19.len_roundtrip", "full"),
+                 ("Tmcg.C19.len_forms_disjoint", "full"), ("Tmcg.C19.partial_len_pow2", "full"),
+                 ("Tmcg.C19.mpi_roundtrip", "full"), ("Tmcg.C19.armor_roundtrip", "full"),
+                 ("Tmcg.C19.armor_rejects_bad_checksum", "full"), ("Tmcg.C19.s2k_count_table", "full"),
+                 ("Tmcg.C19.string_roundtrip", "full")],
+    predicate=pred_c19,
+    level_text="Lean 4 theorems about a model of the OpenPGP encodings written from RFC 4880: radix-64 round trip and line length, CRC-24 = polynomial division with the generated constants, body lengths (all n < 2^32, forms disjoint, partial lengths powers of two), MPIs, strings, armor round trip and checksum rejection for the four armor types, all 256 iterated-S2K count octets. "
+               "Correspondence: the real static methods vs the model byte for byte (encoders on all boundary sizes; decoders also on arbitrary and mutated input); the predicate judges emitted octets by an independent reference (Python base64, a reference CRC-24, the RFC formulas). "
+               "Partial: the packet emitters (signature, key, PKESK, SKESK, literal, SEIPD, AEAD ...), fingerprints/key ids and the KDF loop are not modelled yet; GnuPG as second oracle was used once by hand (gpg --dearmor accepted the emitted armors) and is not part of the check.",
+    level_note=LEVEL_NOTE,
+    assumptions=["partial: packet emitters beyond the primitive encodings are not yet covered",
+                 "known finding F14: the armor of an empty octet string is emitted but not accepted by ArmorDecode"],
 )
